@@ -19,7 +19,7 @@ external("codemodder.sarifs.detect_sarif_tools", params={"filenames": "list[Opaq
 external("codemodder.project_analysis.python_repo_manager.PythonRepoManager", params={"parent_directory": "Opaque"}, returns="Opaque")
 external("opaque.parse_project", params={"self": "Opaque"}, returns="Opaque")
 external("opaque.match_codemods", params={"self": "Opaque", "codemod_include": "Opaque", "codemod_exclude": "Opaque", "sast_only": "Opaque"},
-         returns="list[Opaque]", pure=True, note="CodemodRegistry.match_codemods (verified for C17); pure selection")
+         returns="list[BaseCodemod]", pure=True, note="CodemodRegistry.match_codemods (bounded stand-in for C17); pure selection")
 external("codemodder.context.CodemodExecutionContext",
          params={"directory": "Opaque", "dry_run": "Opaque", "verbose": "Opaque", "registry": "Opaque", "providers": "Opaque",
                  "repo_manager": "Opaque", "path_include": "Opaque", "path_exclude": "Opaque", "tool_result_files_map": "Opaque",
@@ -29,13 +29,13 @@ external("codemodder.context.CodemodExecutionContext",
 external("codemodder.context.CodemodExecutionContext.find_and_fix_paths", params={"self": "CodemodExecutionContext"}, returns="list[Opaque]")
 external("codemodder.context.CodemodExecutionContext.files_to_analyze", params={"self": "CodemodExecutionContext"}, returns="list[Opaque]")
 external("codemodder.context.CodemodExecutionContext.included_paths", params={"self": "CodemodExecutionContext"}, returns="list[str]")
-external("codemodder.codemodder.find_semgrep_results", params={"context": "CodemodExecutionContext", "codemods": "list[Opaque]", "files_to_analyze": "Opaque"},
+external("codemodder.codemodder.find_semgrep_results", params={"context": "CodemodExecutionContext", "codemods": "list[BaseCodemod]", "files_to_analyze": "Opaque"},
          returns="ResultSet", note="semgrep pre-filter (semgrep binary absent offline); total here - an escaping exception ends the process with status 1 (outside the property)")
 external("codemodder.codemodder.apply_codemods", params={"context": "CodemodExecutionContext", "codemods_to_run": "list[Opaque]"},
          modifies=["context._changesets_by_codemod", "context._failures_by_codemod", "context._unfixed_findings_by_codemod",
                    "context.dependencies", "context._dependency_update_by_codemod", "ghost:fs"],
          note="runs the codemods (verified for C09/C15); writes project files only, never the report")
-external("codemodder.context.CodemodExecutionContext.compile_results", params={"self": "CodemodExecutionContext", "codemods": "list[Opaque]"},
+external("codemodder.context.CodemodExecutionContext.compile_results", params={"self": "CodemodExecutionContext", "codemods": "list[BaseCodemod]"},
          returns="Opaque", note="verified for C15")
 external("codemodder.codetf.CodeTF.build", params={"cls": "*", "context": "CodemodExecutionContext", "elapsed_ms": "Opaque",
                                                        "original_args": "Opaque", "results": "Opaque"}, returns="CodeTF")
@@ -59,9 +59,9 @@ _ARGV = "parse_args(original_args, registry.load_registered_codemods())"
 _CTX = ("CodemodExecutionContext(Path(argv.directory), argv.dry_run, argv.verbose, registry.load_registered_codemods(),"
         " providers.load_providers(), PythonRepoManager(Path(argv.directory)), argv.path_include, argv.path_exclude,"
         " tool_result_files_map, argv.max_workers)")
-contract("codemodder.codemodder.run", props=["C20"],
+contract("codemodder.codemodder.run", props=["C20", "C17"],
          params={"original_args": "Opaque"}, returns="int",
-         modifies=["heap:*", "ghost:fs", "ghost:report_written", "ghost:last_run_status"],
+         modifies=["heap:*", "ghost:fs", "ghost:report_written", "ghost:last_run_status", "ghost:events", "ghost:pool_bounds"],
          assume_entry=["not report_written"], raises_any=True,
          ghost_exit={"last_run_status": "result"},
          exsures=[("SystemExit", None, "may", ["exc_code(exc) == 0 or exc_code(exc) == 3", "not report_written",
@@ -79,6 +79,11 @@ contract("codemodder.codemodder.run", props=["C20"],
               f"implies({_ARGV}.output and not report_written and result != 1 and result != 3, result == 2)"),
              ("2 is returned only when a requested report could not be written", f"implies(result == 2, {_ARGV}.output and not report_written)"),
              ("ghost: last_run_status", "last_run_status == result"),
+             ("exactly the selected codemods run, once each, in the selected order; tool-specific codemods are eligible exactly when Sonar issue files or SARIF files are given",
+              f"events == old(events) or events == ev_seq(old(events), registry.load_registered_codemods().match_codemods({_ARGV}.codemod_include,"
+              f" {_ARGV}.codemod_exclude, sast_only={_ARGV}.sonar_issues_json or {_ARGV}.sarif),"
+              f" len(registry.load_registered_codemods().match_codemods({_ARGV}.codemod_include, {_ARGV}.codemod_exclude,"
+              f" sast_only={_ARGV}.sonar_issues_json or {_ARGV}.sarif)))"),
          ],
          covers=["result == 0", "result == 1", "result == 3"])
 
